@@ -1,16 +1,21 @@
 (** C18 — Non-blocking sockets keep non-blocking semantics under the hook. Statements only.
-    Two recorded findings: [nonblocking_fd_waits] (a would-block on a descriptor the caller made
-    non-blocking still waits, up to the socket time limit) and [connect_eintr_spins]. *)
-From OCV Require Import Base.Prelude Syscall.SockIO Syscall.SockIOOracle Syscall.SockIOMain.
+    One recorded finding: [nonblocking_fd_waits] (a would-block on a descriptor the caller made
+    non-blocking still waits, up to the socket time limit). [connect_eintr_spins] is repaired (an
+    interrupted connect is awaited like EINPROGRESS); the model of the code before the repair is
+    [old_run_connect]. *)
+From OCV Require Import Base.Prelude Syscall.SockIO Syscall.SockIOOracle Syscall.SockIOMisc Syscall.SockIOMain.
 Open Scope Z_scope.
 
-(** full: every hooked call that returns (all ten entry points, every accepted input, every
-    script, timeout, wait-failure pattern, both modes) leaves the blocking mode as the caller set it *)
+(** full: every hooked call (all ten entry points, every accepted input, every script, timeout,
+    wait-failure pattern, both modes) returns and leaves the blocking mode as the caller set it *)
+Theorem C18_every_call_returns : forall c, wf_input c = true -> exists o, run_obs c = RObs o.
+Proof. exact every_call_returns. Qed.
+
 Theorem C18_mode_restored : forall c o, wf_input c = true -> run_obs c = RObs o -> o_nb_after o = c_nb c.
 Proof. exact mode_restored. Qed.
 
 (** the whole oracle (mode restored, a non-blocking caller never waits, no kernel call follows one
-    that would have blocked, -1 with that call's errno) outside the two findings *)
+    that would have blocked, -1 with that call's errno) outside the finding *)
 Theorem C18_holds_outside : forall c, wf_input c = true -> no_defect c = true -> ok_C18 c (run_obs c) = true.
 Proof. exact ok_C18_outside. Qed.
 
@@ -18,17 +23,26 @@ Proof. exact ok_C18_outside. Qed.
     would-block while 2 x 200 ms pass: the hooked recv waits twice and reports EAGAIN only after the
     timeout instead of at once *)
 Theorem C18_refuted_nonblocking_fd_waits : exists c,
-  wf_input c = true /\ no_connect_eintr c = true /\ defect_nonblocking_fd_waits c = true
+  wf_input c = true /\ defect_nonblocking_fd_waits c = true
   /\ ok_C18 c (run_obs c) = false.
 Proof.
   exists (mkCfg (SBuf Rd) true 300000000 1000 [4]%nat [(200000000, WouldBlock); (200000000, WouldBlock)] []).
   repeat split; vm_compute; reflexivity.
 Qed.
 
-(** finding: a hooked connect whose inner call fails with EINTR never returns, so the descriptor
-    stays in non-blocking mode (the harness sees the call outlive its watchdog) *)
-Theorem C18_refuted_connect_eintr_spins : exists c, wf_input c = true /\ ok_C18 c (run_obs c) = false.
-Proof. exists (mkCfg SConnect false U64MAX 1000 []%nat [(0, Interrupted)] []). split; vm_compute; reflexivity. Qed.
+(** repaired finding [connect_eintr_spins]: before the repair a hooked connect whose inner call failed
+    with EINTR never returned (the harness saw the call outlive its watchdog, the descriptor stayed
+    non-blocking) *)
+Theorem C18_connect_eintr_refuted_before_repair : forall c, wf_input c = true ->
+  connect_interrupted c = true ->
+  fst (old_run_connect (c_limit c) (c_script c) (init_st c)) = OStuck.
+Proof. exact old_connect_eintr_spins. Qed.
+
+(** now it requests one readiness wait, returns and restores the mode *)
+Theorem C18_connect_eintr_returns : forall c, wf_input c = true -> c_shape c = SConnect ->
+  connect_interrupted c = true ->
+  exists o, run_obs c = RObs o /\ List.length (o_waits o) = 1%nat /\ o_nb_after o = c_nb c.
+Proof. exact connect_eintr_returns. Qed.
 
 (** what the oracle demands of a non-blocking caller's observation *)
 Theorem C18_oracle_meaning : forall c o, ok_C18 c (RObs o) = true ->
@@ -44,8 +58,10 @@ Example C18_nonvacuous :
   let c2 := mkCfg SConnect true U64MAX 1000 []%nat [(0, Fail ECONNRESET)] [] in
   let c3 := mkCfg (SBuf Wr) false 300000000 1000 [4]%nat [(200000000, WouldBlock); (200000000, WouldBlock)] [true] in
   let c4 := mkCfg (SBuf Rd) true 300000000 1000 [4]%nat [(0, WouldBlock); (0, Moved 4)] [] in
+  let c5 := mkCfg SConnect false U64MAX 1000 []%nat [(0, Interrupted)] [] in
   wf_input c = true /\ no_defect c = true /\ wf_input c2 = true /\ no_defect c2 = true
-  /\ wf_input c3 = true /\ no_defect c3 = true /\ wf_input c4 = true /\ no_defect c4 = false /\
+  /\ wf_input c3 = true /\ no_defect c3 = true /\ wf_input c4 = true /\ no_defect c4 = false
+  /\ wf_input c5 = true /\ no_defect c5 = true /\ connect_interrupted c5 = true /\
   run_obs c = RObs (mkObs 2 0 [mkReq 1 true [(0, 0, 4)]%nat EINTR 0; mkReq 1 true [(0, 0, 4)]%nat 0 2]
                           [1; 2; 0; 0] [] true false)
   /\ run_obs c2 = RObs (mkObs (-1) ECONNRESET [mkReq 0 true [] ECONNRESET 0] [] [] true false)
@@ -54,6 +70,9 @@ Example C18_nonvacuous :
   /\ run_obs c4 = RObs (mkObs 4 0 [mkReq 1 true [(0, 0, 4)]%nat EAGAIN 0; mkReq 1 true [(0, 0, 4)]%nat 0 4]
                            [1; 2; 3; 4] [SLICE] true false)
   /\ ok_C18 c4 (run_obs c4) = false
+  (* the interrupted connect: one wait, then what getpeername/SO_ERROR say *)
+  /\ run_obs c5 = RObs (mkObs 0 0 [mkReq 0 true [] EINTR 0] [] [SLICE] false false)
+  /\ ok_C18 c5 (run_obs c5) = true
   (* what the property asks for instead *)
   /\ ok_C18 c4 (RObs (mkObs (-1) EAGAIN [mkReq 1 true [(0, 0, 4)]%nat EAGAIN 0] [0; 0; 0; 0] [] true false)) = true
   (* a mode that is not restored is rejected *)
@@ -63,5 +82,7 @@ Proof. repeat split; vm_compute; reflexivity. Qed.
 Print Assumptions C18_mode_restored.
 Print Assumptions C18_holds_outside.
 Print Assumptions C18_refuted_nonblocking_fd_waits.
-Print Assumptions C18_refuted_connect_eintr_spins.
+Print Assumptions C18_connect_eintr_refuted_before_repair.
+Print Assumptions C18_connect_eintr_returns.
+Print Assumptions C18_every_call_returns.
 Print Assumptions C18_oracle_meaning.
